@@ -139,8 +139,49 @@ def run(tier, t0):
     vlib.write_ndjson(path, [{"id": c["id"], "txt": c["text"]} for c in cases])
     res = os.path.join(wd, "res.ndjson")
     rc, _, err = vlib.vh(["types", path], stdout_path=res)
+    crashed = 0
     if rc != 0:
-        raise vlib.ToolError("vh types failed: " + err)
+        # the driver process itself died (stack exhaustion / abort cannot be caught in-process): what a request would do to
+        # the proxy. Find the expressions without an answer and run each one in a process of its own.
+        def run_some(sub, tag):
+            pth = os.path.join(wd, "sub_%s.ndjson" % tag)
+            out = os.path.join(wd, "sub_%s_res.ndjson" % tag)
+            vlib.write_ndjson(pth, [{"id": c["id"], "txt": c["text"]} for c in sub])
+            rc1, _, err1 = vlib.vh(["types", pth], stdout_path=out, timeout=600)
+            return rc1, out, err1
+
+        def crashers(sub, depth=0):
+            """expressions of `sub` that take the driver process down, found by halving; answers of the others are kept"""
+            rc1, out, err1 = run_some(sub, "d%d" % depth)
+            if rc1 == 0:
+                good.extend(l for l in open(out, "rb") if b'"id"' in l)
+                return []
+            if len(sub) == 1:
+                return [(sub[0], rc1, err1)]
+            if len(found) >= 3:
+                return []
+            h = len(sub) // 2
+            a = crashers(sub[:h], depth + 1)
+            found.extend(a)
+            b = crashers(sub[h:], depth + 1)
+            return a + b
+        good, found, bad = [], [], []
+        for k in range(0, len(cases), 4000):
+            bad += crashers(cases[k:k + 4000])
+        if not bad:
+            raise vlib.ToolError("vh types failed (rc=%s) but no single expression reproduces it: %s" % (rc, err[-300:]))
+        dead = set()
+        for c, rc1, err1 in bad:
+            crashed += 1
+            dead.add(c["id"])
+            v.report("types/process-died/%s" % c.get("root", "?"), {"text": c["text"], "rc": rc1, "stderr": err1[-200:], "reference_type": c["ty"]["k"]},
+                     {"driver": "vh types", "case": {"id": 0, "txt": c["text"]}})
+        answered = {json.loads(l)["id"] for l in good}
+        with open(res, "wb") as f:
+            f.writelines(good)
+            for c in cases:
+                if c["id"] not in answered:
+                    f.write(json.dumps({"id": c["id"], "died": True}).encode() + b"\n")
     n = 0
     accepted = welltyped = evald = 0
     with open(res, "rb") as f:
@@ -148,6 +189,8 @@ def run(tier, t0):
             o = json.loads(line.decode("utf-8", "replace"))
             c = cases[o["id"]]
             n += 1
+            if o.get("died"):
+                continue
             if c["ty"]["k"] not in ("reject", "open"):
                 welltyped += 1
             if o.get("ty", {}).get("ok") is not None:
